@@ -194,22 +194,22 @@ Proof.
   exact (conj cx_wf (conj cx_shape_ok (conj cx_consistent (conj cx_rsized (conj cx_gclean (conj cx_psz cx_run)))))).
 Qed.
 
-(* Non-vacuity of the concrete layer, second tape (33 operators, three parameters W {2,3},
-   v {2}, K {2,2}; minibatch of 2): matmul of the batch-1 W with the batched input, subtract
+(* Non-vacuity of the concrete layer, second tape (41 operators, four parameters W {2,3},
+   v {2}, K {2,2}, a scalar c; minibatch of 2): matmul of the batch-1 W with the batched input, subtract
    and concat with the batch-1 v, a two-output split of which ONE output is used, flip,
    reshape, transpose, broadcast, permute_dims, pick, sum, batch::slice / concat / pick /
-   split / sum, conv2d, multiply, stop_gradient, add, copy, the constant operators and
-   negation.  Every guard evaluates to true on these shapes (cy_shape_ok), the tangents are
+   split / sum, conv2d, multiply, stop_gradient, add, copy, the constant operators, negation
+   and the four ...Scalar operators (scalar c of batch 1 against {2} x 2).  Every guard evaluates to true on these shapes (cy_shape_ok), the tangents are
    computed by the operators' JVPs, and the gradients are the hand-derived derivatives. *)
 Example C01_graph_concrete_nonvacuous_all_ops :
   wf_ops cy_ops0 /\ shape_ok zF cy_ops0 /\ consistent zF zJ cy_tan cy_dp cy_ops0 cy_env /\
   rsized zF tsize cy_tan cy_ops0 cy_env /\ gclean cy_ops0 /\ psz zF tsize cy_ops0 cy_env /\
-  (forall k oi p, nth_error cy_ops0 k = Some oi -> f_inner zF (o_op oi) = Some p -> In p [0; 1; 2]) /\
+  (forall k oi p, nth_error cy_ops0 k = Some oi -> f_inner zF (o_op oi) = Some p -> In p [0; 1; 2; 3]) /\
   exists ops' e' bl',
-    sweep zF cVO 32 cy_seeded cy_env [] = Some (ops', e', bl') /\
-    e_pgrad e' 0 = [1440; 1440; 2016; 2016; 2592; 2592]%Z /\ e_pgrad e' 1 = [-569; -569]%Z /\
-    e_pgrad e' 2 = [1933; 1657; 1105; 829]%Z /\ length bl' = 33 /\
-    ppot 0%Z Z.add Z.mul cy_dp [0; 1; 2] e' = (ppot 0%Z Z.add Z.mul cy_dp [0%nat; 1%nat; 2%nat] cy_env + 11712)%Z.
+    sweep zF cVO 40 cy_seeded cy_env [] = Some (ops', e', bl') /\
+    e_pgrad e' 0 = [1430; 1430; 2002; 2002; 2574; 2574]%Z /\ e_pgrad e' 1 = [-565; -565]%Z /\
+    e_pgrad e' 2 = [1933; 1657; 1105; 829]%Z /\ e_pgrad e' 3 = [-27]%Z /\ length bl' = 41 /\
+    ppot 0%Z Z.add Z.mul cy_dp [0; 1; 2; 3] e' = (ppot 0%Z Z.add Z.mul cy_dp [0%nat; 1%nat; 2%nat; 3%nat] cy_env + 11565)%Z.
 Proof.
   exact (conj cy_wf (conj cy_shape_ok (conj cy_consistent (conj cy_rsized (conj cy_gclean (conj cy_psz (conj cy_cover cy_run))))))).
 Qed.
